@@ -17,6 +17,7 @@ Decided (structural necessary conditions; networkx's search itself is trusted):
  Rp presence      : optional numeric fields are tested with `is None` / membership, never by truthiness (0 is a value).
  R6 group constraints: in a disjunction group the scan of a combination stops early only after a STRICT failure.
  R7 same request  : compare_reqs compares the same attribute of both requests (route lists and LOOSE/STRICT flags included).
+ Ra alias mutation: a local that still names a list of another object (not copied) is never mutated in place.
 """
 import ast
 
@@ -358,6 +359,15 @@ def r7_same_request(ctx):
     ctx.need('R7.same-request', 15)
 
 
+def ra_alias(ctx):
+    """Ra: a local that still names a list / dict of another object (bound from an attribute or an item, not copied on that path:
+    freshness lattice) is never mutated in place"""
+    from .common import alias_mutation_rule
+    from ..memo import scope_funcs
+    alias_mutation_rule(ctx, 'Ra.alias-mutation', scope_funcs(ctx.repo, 'C11'), 'the OMS element lists shared by all routes would grow with every explicit route')
+    ctx.need('Ra.alias-mutation', 3)
+
+
 from ..memo import rule_for as _memo_rule
 
 RULES_MEMO = ('Rm.memo', _memo_rule('C11', 'a route computed for another request or topology would be returned'))
@@ -368,4 +378,4 @@ from ..presence import rule_for as _presence_rule
 RULES_PRESENCE = ('Rp.presence', _presence_rule('C11', 'a legal zero would be read as missing'))
 
 RULES = [('R1.metric', r1_metric), ('R2.outcomes', r2_outcomes), ('R3.reasons', r3_reasons), ('R4.route-lists', r4_route_lists),
-         ('R5.helpers', r5_helpers), RULES_MEMO, RULES_PRESENCE, ('R6.group-constraints', r6_group_constraints), ('R7.same-request', r7_same_request)]
+         ('R5.helpers', r5_helpers), RULES_MEMO, RULES_PRESENCE, ('R6.group-constraints', r6_group_constraints), ('R7.same-request', r7_same_request), ('Ra.alias-mutation', ra_alias)]
